@@ -306,7 +306,7 @@ def trace(fn: ast.AST, resolve=None, max_depth: int = 2) -> List[Event]:
                     return r, isinstance(c.func, ast.Attribute)
             return None, False
 
-        def expr_events(e: ast.AST, conds, protected, target=None):
+        def expr_events(e: ast.AST, conds, protected, target=None, loops=()):
             # calls inside the expression, innermost first, in source order
             for c in sorted([x for x in ast.walk(e) if isinstance(x, ast.Call)], key=lambda x: (x.lineno, x.col_offset)):
                 d, is_method = callee_of(c)
@@ -335,7 +335,7 @@ def trace(fn: ast.AST, resolve=None, max_depth: int = 2) -> List[Event]:
                 if isinstance(st, (ast.FunctionDef, ast.AsyncFunctionDef, ast.ClassDef)):
                     continue
                 if isinstance(st, ast.If):
-                    expr_events(st.test, conds, protected)
+                    expr_events(st.test, conds, protected, loops=loops)
                     block(st.body, conds + [(st.test, True, subst)], protected, loops)
                     block(st.orelse, conds + [(st.test, False, subst)], protected, loops)
                     exits_body = bool(st.body) and isinstance(st.body[-1], (ast.Return, ast.Continue, ast.Raise, ast.Break))
@@ -345,12 +345,12 @@ def trace(fn: ast.AST, resolve=None, max_depth: int = 2) -> List[Event]:
                     elif exits_else and not exits_body:
                         conds = conds + [(st.test, True, subst)]
                 elif isinstance(st, (ast.For, ast.AsyncFor)):
-                    expr_events(st.iter, conds, protected)
+                    expr_events(st.iter, conds, protected, loops=loops)
                     events.append(Event("loop", st, conds, protected, subst, f, depth, target=ast.unparse(st.target), value=st.iter, loops=loops))
                     block(st.body, conds, protected, loops + (st,))
                     block(st.orelse, conds, protected, loops)
                 elif isinstance(st, ast.While):
-                    expr_events(st.test, conds, protected)
+                    expr_events(st.test, conds, protected, loops=loops)
                     block(st.body, conds + [(st.test, True, subst)], protected, loops + (st,))
                     block(st.orelse, conds, protected, loops)
                 elif isinstance(st, (ast.With, ast.AsyncWith)):
@@ -360,7 +360,7 @@ def trace(fn: ast.AST, resolve=None, max_depth: int = 2) -> List[Event]:
                         if isinstance(ce, ast.Call) and call_name(ce).split(".")[-1] == "suppress":
                             prot = prot + [("suppress", [ast.unparse(a).split(".")[-1] for a in ce.args], st, inst)]
                         else:
-                            expr_events(ce, conds, protected)
+                            expr_events(ce, conds, protected, loops=loops)
                     block(st.body, conds, prot, loops)
                 elif isinstance(st, ast.Try):
                     sw = _swallowing_handlers(st)
@@ -373,7 +373,7 @@ def trace(fn: ast.AST, resolve=None, max_depth: int = 2) -> List[Event]:
                     block(st.finalbody, conds, protected, loops)
                 elif isinstance(st, ast.Return):
                     if st.value is not None:
-                        expr_events(st.value, conds, protected, target=ret_target)
+                        expr_events(st.value, conds, protected, target=ret_target, loops=loops)
                     if depth > 0 and ret_target is not None and st.value is not None:
                         events.append(Event("assign", st, conds, protected, subst, f, depth, target=ret_target, value=st.value, loops=loops))
                     else:
@@ -385,17 +385,17 @@ def trace(fn: ast.AST, resolve=None, max_depth: int = 2) -> List[Event]:
                     tgts = st.targets if isinstance(st, ast.Assign) else [st.target]
                     tname = ast.unparse(tgts[0]) if tgts else None
                     if val is not None:
-                        expr_events(val, conds, protected, target=tname)
+                        expr_events(val, conds, protected, target=tname, loops=loops)
                         for tg in tgts:      # a = b = v assigns both
                             events.append(Event("assign", st, conds, protected, subst, f, depth, target=ast.unparse(tg), value=val, loops=loops))
                 elif isinstance(st, ast.Expr):
-                    expr_events(st.value, conds, protected)
+                    expr_events(st.value, conds, protected, loops=loops)
                 elif isinstance(st, (ast.Continue, ast.Break)):
                     events.append(Event("jump", st, conds, protected, subst, f, depth, loops=loops))
                 else:
                     for e in ast.iter_child_nodes(st):
                         if isinstance(e, ast.expr):
-                            expr_events(e, conds, protected)
+                            expr_events(e, conds, protected, loops=loops)
 
         block(f.body, conds, protected, loops)
 
